@@ -199,7 +199,7 @@ def absorb(res: core.Result, part: str, run_ref: str, out: Dict[str, Any], confi
     cov["distinct_nontrivial"] = cov.get("distinct_nontrivial", 0) + len(st.digests)
     cov.setdefault("samples", [])
     for s in st.samples[:2]:
-        cov["samples"].append({"part": part, **jsonable(s)})
+        cov["samples"].append({"part": part, **jsonable({k: v for k, v in s.items() if k != "_k"})})
     cov.setdefault("parts", {})[part] = p
     cov["audit_replayed"] = cov.get("audit_replayed", 0) + out["replayed"]
     cov["audit_mismatches"] = cov.get("audit_mismatches", 0) + out["replay_mismatches"]
